@@ -209,6 +209,37 @@ def run(ck):
                     nm, ri, ii = g.match2ref(ref, match=m)
                     if nm != len(ri):
                         raise AssertionError('nmatches != len(mref_idx)')
+                    # the catalog of unmatched sources is the complement of the matched rows - also after the same
+                    # group is matched AGAIN, to a reduced reference catalog (earlier matches must not linger)
+                    from tweakwcs.wcsimage import RefCatalog as _RC
+
+                    def unmatched_ok(idx, label):
+                        um = g.get_unmatched_cat()
+                        got_um = sorted(zip(np.asarray(um['x'], dtype=float).tolist(), np.asarray(um['y'], dtype=float).tolist()))
+                        mset = set(int(v) for v in idx)
+                        exp_um = sorted((float(pr['impx'][k_][0]), float(pr['impx'][k_][1]))
+                                        for k_ in range(len(pr['impx'])) if k_ not in mset)
+                        ck.search_evaluations += 1
+                        if got_um != exp_um:
+                            ck.violation({'kind': 'get_unmatched_cat is not the complement of the matched rows', 'when': label,
+                                          'problem': slim(pr), 'matched_input_idx': sorted(mset),
+                                          'unmatched_xy_returned': got_um, 'unmatched_xy_expected': exp_um})
+                    unmatched_ok(ii, 'after match2ref')
+                    keep = [i_ for i_ in range(len(ref.catalog)) if i_ % 2 == 0]
+                    if len(keep) >= 2:
+                        ref2 = _RC(Table([np.asarray(ref.catalog['RA'])[keep], np.asarray(ref.catalog['DEC'])[keep]],
+                                         names=('RA', 'DEC')))
+                        ref2.calc_tanp_xy(corr)
+                        try:
+                            _, _, ii2 = g.match2ref(ref2, match=XYXYMatch(
+                                searchrad=pr['sr'], separation=pr['sep'], tolerance=pr['tol'], use2dhist=pr['use2d'],
+                                xoffset=pr['xo'], yoffset=pr['yo']))
+                        except Exception:   # noqa: BLE001
+                            ii2 = None
+                            ck.discard('re-match to the reduced reference catalog raised (too few sources)')
+                        if ii2 is not None:
+                            ck.count('rematch_lost_sources', min(4, len(set(map(int, ii)) - set(map(int, ii2)))))
+                            unmatched_ok(ii2, 'after a second match2ref of the same group to every other reference row')
                 elif name == 'XYXYMatch-tp_wcs':
                     import warnings
                     g, ref, corr = build_group(Corr, pr)
